@@ -18,19 +18,20 @@
   stop callback, `request_stop` taking the callback), the store to `callbackCompleted_` the stop
   source performs after the callback returned, one receiver completion.
 
-  THE CODE IS MODELLED AS IT IS, including three behaviours that violate C14 (proved as
-  violations with witnesses in Props/C14.lean and reproduced on the real code by scn_c14.cpp):
-    * `start_io` tests the syscall RESULT against -EAGAIN, -EWOULDBLOCK, -EPERM, but readv/writev
-      return -1 and set errno: every failure (-1 == -EPERM) takes the "would block" path and the
-      errno is lost; after readiness a failure is reported as `error_code{-int(-1)}` = EPERM;
-    * the stop callback runs inline inside `stopCallback_.construct` when stop was already
-      requested, i.e. BEFORE `epoll_ctl(ADD)`: the cancellation's `epoll_ctl(DEL)` finds nothing
-      and the registration made afterwards survives the operation (history flag `bad = 2` when the
-      kernel later delivers an event for the dead operation; `bad = 3` when it delivers a second event
-      for the not yet completed operation whose `execute_` is already null);
-    * `complete_with_done` never destructs `stopCallback_`: the operation can complete (and be
-      destroyed by its receiver) while `inplace_stop_source::request_stop` has not yet stored
-      `callbackCompleted_` into that callback object (`bad = 1`).
+  The model follows the code after
+    * the errno repair (/repo 1b893b7): `if (result < 0) result = -errno;` after every readv/writev,
+      so EAGAIN/EWOULDBLOCK (and, as coded, EPERM) take the "would block" path and every other
+      failure completes the operation with that errno;
+    * the cancellation repair proposed with this check (tools/checks/c14_repair.patch):
+      `on_read_complete` deregisters from epoll BEFORE the `fetch_add` election (as
+      `on_write_complete` always did), and `complete_with_done`, before `set_done`, destructs
+      `stopCallback_` when the readiness handler never ran (`state_ & io_mask == 0`) and repeats
+      `epoll_ctl(DEL)`.
+  History flags record what the UNREPAIRED code did wrong and the harness monitors still watch:
+  `bad = 1` operation state written after completion (request_stop's store to
+  `callbackCompleted_`), `bad = 2` event for a completed operation (registration made after the
+  cancellation's DEL), `bad = 3` second readiness event for an operation whose `execute_` was
+  already consumed.  Props/C14_cancel.lean proves that none of them is reachable any more.
 
   Abstractions: the context's queues are FIFO lists and "an item put on the remote queue is
   eventually dequeued" (the wake-up protocol is Proto/RemoteQueue.lean); the operation's stop source
@@ -109,6 +110,7 @@ structure St where
   rs : Bool          -- remoteQueueReadSubmitted_: the remote queue was found empty and marked inactive;
                      -- the loop looks at it again only after the eventfd was reported by epoll_wait
   pend : Nat         -- syscall result carried to the completion: n bytes
+  pendErr : Nat      -- … or errno (0 = none)
   -- the kernel
   avail : Nat
   reg : Nat          -- epoll registration of the descriptor: 0 none, i+1 -> data.ptr = op i
@@ -126,7 +128,7 @@ def OpSt.init : OpSt := ⟨0, 0, 0, 0, false, 0, false, 0, 0, 0, false, 0, 0⟩
 
 def init (cfg : Config) : St :=
   { ops := List.replicate cfg.nOps OpSt.init, t0 := ⟨0, 0⟩, t2 := ⟨0, 0⟩, lq := [], rq := [], batch := [],
-    lpc := 0, cur := (0, 0), rs := false, pend := 0, avail := cfg.avail0, reg := 0, calls := 0,
+    lpc := 0, cur := (0, 0), rs := false, pend := 0, pendErr := 0, avail := cfg.avail0, reg := 0, calls := 0,
     fenceIssued := 0, fences := 0, bad := 0 }
 
 def getOp (s : St) (i : Nat) : OpSt := s.ops.getD i OpSt.init
@@ -153,6 +155,17 @@ def sysResult (cfg : Config) (s : St) (len : Nat) : SysRes :=
   | some (.err e) => .err e
   | some (.short m) => if s.avail = 0 then .eagain else .ok (min (min m len) s.avail)
   | none => if s.avail = 0 then .eagain else .ok (min len s.avail)
+
+/-- `-errno` of a failed syscall -/
+def errnoOf (r : SysRes) : Nat :=
+  match r with
+  | .ok _ => 0
+  | .eagain => 11
+  | .eintr => 4
+  | .err e => e
+
+/-- `result == -EAGAIN || result == -EWOULDBLOCK || result == -EPERM` -/
+def wouldBlock (r : SysRes) : Bool := errnoOf r == 11 || errnoOf r == 1
 
 def sysLabel (cfg : Config) (r : SysRes) : String :=
   match r with
@@ -228,7 +241,7 @@ def stepLoopDet (cfg : Config) (s : St) : Option (Lbl × St) :=
       | 1 =>  -- --item->enqueued_; execute = std::exchange(item->execute_, nullptr)
         let s2 := touch s1 it.2
         some (tau 1, { setOp s2 it.2 { getOp s2 it.2 with cEnq := 0, exec := false } with lpc := 20 })
-      | 2 => some (tau 1, { s1 with lpc := 30 })
+      | 2 => some (tau 1, { s1 with lpc := 26 })
       | _ => some (ev 1 "fence", { s1 with fences := s.fences + 1 })
   | 2 =>  -- if (!remoteQueueReadSubmitted_) remoteQueueReadSubmitted_ = try_schedule_local_remote_queue_contents()
     if s.rs then some (tau 1, { s with lpc := 3 })
@@ -240,9 +253,11 @@ def stepLoopDet (cfg : Config) (s : St) : Option (Lbl × St) :=
     let s1 := { s with calls := s.calls + 1 }
     match r with
     | .ok n =>
-      some (ev 1 (sysLabel cfg r), { setOp s1 i { o with sysOk := n + 1 } with avail := s.avail - n, pend := n, lpc := 15 })
-    | .err e => some (ev 1 (sysLabel cfg r), { setOp s1 i { o with sysErr := e } with lpc := 11 })
-    | _ => some (ev 1 (sysLabel cfg r), { s1 with lpc := 11 })
+      some (ev 1 (sysLabel cfg r), { setOp s1 i { o with sysOk := n + 1 } with avail := s.avail - n, pend := n, pendErr := 0, lpc := 15 })
+    | _ =>
+      let o1 := match r with | .err e => { o with sysErr := e } | _ => o
+      if wouldBlock r then some (ev 1 (sysLabel cfg r), { setOp s1 i o1 with lpc := 11 })
+      else some (ev 1 (sysLabel cfg r), { setOp s1 i o1 with pendErr := errnoOf r, lpc := 15 })
   | 11 =>  -- stopCallback_.construct(...)
     if o.stopReq then some (tau 1, { setOp s i { o with cb := 5 } with lpc := 12 })
     else some (tau 1, { setOp s i { o with cb := 1 } with lpc := 14 })
@@ -254,33 +269,43 @@ def stepLoopDet (cfg : Config) (s : St) : Option (Lbl × St) :=
     some (tau 1, { setOp s i { o with exec := true } with reg := if s.reg = 0 then i + 1 else s.reg, lpc := 1 })
   | 15 =>  -- state_.fetch_add(io_flag)
     some (tau 1, { setOp s i { o with ioF := o.ioF + 1 } with lpc := if o.cancelF = 0 then 17 else 1 })
-  | 17 => some (ev 1 s!"value{i} {s.pend}", { complete s i 1 s.pend with lpc := 1 })
+  | 17 =>
+    if s.pendErr = 0 then some (ev 1 s!"value{i} {s.pend}", { complete s i 1 s.pend with lpc := 1 })
+    else some (ev 1 s!"error{i} {s.pendErr}", { complete s i 3 s.pendErr with lpc := 1 })
   -- ---- on_read_complete / on_write_complete
   | 20 =>  -- stopCallback_.destruct()
     if o.cb = 2 then none      -- the callback is executing on another thread: spin on callbackCompleted_
     else
       let s1 := touch s i
       let cb' := if o.cb = 1 || o.cb = 3 then 4 else o.cb
-      some (tau 1, { setOp s1 i { getOp s1 i with cb := cb' } with lpc := if cfg.isWrite then 22 else 21 })
+      some (tau 1, { setOp s1 i { getOp s1 i with cb := cb' } with lpc := 22 })
   | 21 =>  -- state_.fetch_add(io_flag)
     let s1 := setOp (touch s i) i { o with ioF := o.ioF + 1 }
-    some (tau 1, { s1 with lpc := if o.cancelF ≠ 0 then 1 else if cfg.isWrite then 23 else 22 })
-  | 22 => some (tau 1, { touch s i with reg := 0, lpc := if cfg.isWrite then 21 else 23 })   -- epoll_ctl(DEL)
+    some (tau 1, { s1 with lpc := if o.cancelF ≠ 0 then 1 else 23 })
+  | 22 => some (tau 1, { touch s i with reg := 0, lpc := 21 })   -- epoll_ctl(DEL), before the election
   | 23 =>  -- the retry
     let r := sysResult cfg s o.len
     let s1 := { touch s i with calls := s.calls + 1 }
     match r with
     | .ok n =>
       some (ev 1 (sysLabel cfg r), { setOp s1 i { getOp s1 i with sysOk := n + 1 } with avail := s.avail - n, pend := n, lpc := 24 })
-    | .err e => some (ev 1 (sysLabel cfg r), { setOp s1 i { getOp s1 i with sysErr := e } with lpc := 25 })
-    | _ => some (ev 1 (sysLabel cfg r), { s1 with lpc := 25 })
+    | .err e => some (ev 1 (sysLabel cfg r), { setOp s1 i { getOp s1 i with sysErr := e } with pendErr := e, lpc := 25 })
+    | _ => some (ev 1 (sysLabel cfg r), { s1 with pendErr := errnoOf r, lpc := 25 })
   | 24 => some (ev 1 s!"value{i} {s.pend}", { complete s i 1 s.pend with lpc := 1 })
-  | 25 => some (ev 1 s!"error{i} 1", { complete s i 3 1 with lpc := 1 })       -- error_code{-int(-1)}
+  | 25 => some (ev 1 s!"error{i} {s.pendErr}", { complete s i 3 s.pendErr with lpc := 1 })       -- error_code{-result}
   -- ---- complete_with_done
-  | 30 =>
+  | 26 =>  -- completion_base::enqueued_ == 0 ?  state_ & io_mask == 0 ?
     let s1 := touch s i
-    if o.cEnq = 0 then some (ev 1 s!"done{i}", { complete s1 i 2 0 with lpc := 1 })
-    else some (tau 1, { s1 with lq := s.lq ++ [(2, i)], lpc := 1 })
+    if o.cEnq ≠ 0 then some (tau 1, { s1 with lq := s.lq ++ [(2, i)], lpc := 1 })
+    else some (tau 1, { s1 with lpc := if o.ioF = 0 then 27 else 28 })
+  | 27 =>  -- the readiness handler never ran: stopCallback_.destruct() (waits for request_stop on another thread)
+    if o.cb = 2 then none
+    else
+      let s1 := touch s i
+      let cb' := if o.cb = 1 || o.cb = 3 then 4 else o.cb
+      some (tau 1, { setOp s1 i { getOp s1 i with cb := cb' } with lpc := 28 })
+  | 28 => some (tau 1, { touch s i with reg := 0, lpc := 29 })   -- epoll_ctl(DEL) again: start_io may have registered after request_stop's DEL
+  | 29 => some (ev 1 s!"done{i}", { complete s i 2 0 with lpc := 1 })
   | _ => none
 
 /-- the readiness event of the registered descriptor, as `acquire_completion_queue_items` handles it -/
@@ -358,7 +383,7 @@ def encItems (l : List Item) : List Nat := l.length :: l.flatMap (fun it => [it.
 def encOp (o : OpSt) : List Nat :=
   [o.len, o.ioF, o.cancelF, o.cb, b2n o.stopReq, o.cEnq, b2n o.exec, o.outcome, o.val, o.completions, b2n o.freed, o.sysOk, o.sysErr]
 def encSt (s : St) : List Nat :=
-  [s.t0.ip, s.t0.pc, s.t2.ip, s.t2.pc, s.lpc, s.cur.1, s.cur.2, b2n s.rs, s.pend, s.avail, s.reg, s.calls,
+  [s.t0.ip, s.t0.pc, s.t2.ip, s.t2.pc, s.lpc, s.cur.1, s.cur.2, b2n s.rs, s.pend, s.pendErr, s.avail, s.reg, s.calls,
    s.fenceIssued, s.fences, s.bad, s.ops.length] ++ s.ops.flatMap encOp ++
   encItems s.lq ++ encItems s.rq ++ encItems s.batch
 
@@ -379,13 +404,13 @@ def decOps : Nat → List Nat → List OpSt × List Nat
 
 def decSt (l : List Nat) : St :=
   match l with
-  | a :: b :: c :: d :: lpc :: c1 :: c2 :: rs :: pend :: av :: reg :: calls :: fi :: fe :: bad :: no :: r =>
+  | a :: b :: c :: d :: lpc :: c1 :: c2 :: rs :: pend :: pe :: av :: reg :: calls :: fi :: fe :: bad :: no :: r =>
     let (ops, r1) := decOps no r
     let (lq, r2) := decItemList r1
     let (rq, r3) := decItemList r2
     let (bt, _) := decItemList r3
     { ops := ops, t0 := ⟨a, b⟩, t2 := ⟨c, d⟩, lq := lq, rq := rq, batch := bt, lpc := lpc, cur := (c1, c2),
-      rs := rs == 1, pend := pend, avail := av, reg := reg, calls := calls, fenceIssued := fi, fences := fe, bad := bad }
+      rs := rs == 1, pend := pend, pendErr := pe, avail := av, reg := reg, calls := calls, fenceIssued := fi, fences := fe, bad := bad }
   | _ => { init ⟨false, [], [], 0, [], 0, 0⟩ with bad := 99 }
 
 def coded : Coded St :=
@@ -413,8 +438,8 @@ def cfgRdCancelRace : Config := rd [.start 0 8, .feed 5, .await 0, .join2, .fenc
 /-- stop requested before the operation is started; the descriptor is used again afterwards -/
 def cfgRdCancelBeforeStart : Config :=
   rd [.cancel 0, .start 0 8, .await 0, .feed 4, .fence, .start 1 8, .await 1] [] 0 [] 2
-/-- the first readv fails with EIO (errno 5) -/
-def cfgRdErrorStart : Config := rd [.start 0 8, .fence, .await 0, .join2] [.cancel 0] 2 [(1, .err 5)]
+/-- the first readv fails with EIO (errno 5): the operation completes with that error at once -/
+def cfgRdErrorStart : Config := rd [.start 0 8, .fence, .await 0] [] 0 [(1, .err 5)]
 /-- the retry after readiness fails with EIO -/
 def cfgRdErrorRetry : Config := rd [.start 0 8, .fence, .feed 5, .await 0] [] 0 [(2, .err 5)]
 
